@@ -122,7 +122,7 @@ def s2(ck, an):
         own_writers(ck, an, "S2.chain-immutable", "FutureChain", attr, {"FutureChain.__init__"}, min_sites=1)
     ff = an.fa("Future.__init__")
     st = assigns_to_attr(ff, "last_trading_date")
-    ck.check(len(st) == 1 and isinstance(st[0], ast.Assign) and ast.unparse(st[0].value) == "self._get_last_trading_date(self.expiry)", "ARGFLOW", "S2.last-trading-date-from-expiry", ff.f.short, ff.f.loc,
+    ck.check(len(st) == 1 and isinstance(st[0], ast.Assign) and ff.sym.canon(st[0].value) == specv(ff, "self._get_last_trading_date(self.expiry)", ff.node_of(st[0]).id).key(), "ARGFLOW", "S2.last-trading-date-from-expiry", ff.f.short, ff.f.loc,
              "last_trading_date = _get_last_trading_date(expiry)", "last_trading_date is not derived from the expiry", construct="self.last_trading_date = self._get_last_trading_date(self.expiry)")
 
 
@@ -191,19 +191,20 @@ def s5(ck, an):
     loops = [n for n in walk_function(fc.f.node) if isinstance(n, ast.For)]
     ok = len(loops) == 1 and ast.unparse(loops[0].iter) == "self.contracts" and not any(isinstance(x, (ast.If, ast.Continue, ast.Break)) for x in ast.walk(loops[0]))
     ext = [c for c in fc.calls_named("extend")] + [c for c in fc.calls_named("append")]
-    ok = ok and len(ext) == 1 and "make_events()" in ast.unparse(ext[0])
+    ok = ok and len(ext) == 1 and len(ext[0].args) == 1 and isinstance(loops[0].target, ast.Name) \
+        and fc.sym.canon(ext[0].args[0]) == specv(fc, f"{loops[0].target.id}.make_events()", fc.node_of(ext[0]).id).key()
     rets = returns_in(fc)
-    ok = ok and len(rets) == 1 and isinstance(ext[0].func.value, ast.Name) and ast.unparse(rets[0].value) == ext[0].func.value.id
+    ok = ok and len(rets) == 1 and isinstance(ext[0].func.value, ast.Name) and fc.sym.canon(rets[0].value) == fc.sym.canon(ext[0].func.value)
     ck.check(ok, "ARGFLOW", "S5.chain-covers-all-contracts", fc.f.short, fc.f.loc, "the chain returns the discontinuation events of every contract it lists", "FutureChain.make_events does not cover all self.contracts",
              construct="for future in self.contracts: events.extend(future.make_events())")
     fe = an.fa("TradingEnv.__init__")
     mk = [c for c in fe.calls_named("make_events")]
     cp = fe.calls_to("Transmitter._create_partitions", "AbstractTransmitter._create_partitions")
     ok = False
-    for c in mk:
-        lp = next((p for p in parents(c) if isinstance(p, ast.For)), None)
-        add = next((p for p in parents(c) if isinstance(p, ast.Call) and ast.unparse(p.func).endswith(".add_events")), None)
-        if lp is not None and ast.unparse(lp.iter) == "self.action_space.contracts" and add is not None and ast.unparse(c.func.value) == lp.target.id and not any(isinstance(x, (ast.If, ast.Continue)) for x in ast.walk(lp)):
+    for add in fe.calls_named("add_events"):
+        lp = next((p for p in parents(add) if isinstance(p, ast.For)), None)
+        if lp is not None and fe.sym.canon(lp.iter) == "self.action_space.contracts" and isinstance(lp.target, ast.Name) and len(add.args) == 1 \
+                and fe.sym.canon(add.args[0]) == specv(fe, f"{lp.target.id}.make_events()", fe.node_of(add).id).key() and not any(isinstance(x, (ast.If, ast.Continue, ast.Break)) for x in ast.walk(lp)):
             ok = True
     ck.check(ok, "ARGFLOW", "S5.env-registers-events", fe.f.short, fe.f.loc, "TradingEnv registers make_events() of every action-space contract with the transmitter", "TradingEnv does not register every contract's events",
              construct="for contract in self.action_space.contracts: self._transmitter.add_events(contract.make_events())")
